@@ -44,6 +44,22 @@ type c19Step struct {
 	Pause int    `json:"pause,omitempty"` // delay units before the acquire / set / wait (see c19Delay)
 	Hold  int    `json:"hold,omitempty"`  // delay units while holding (Event setter: time the event stays set)
 	Reent int    `json:"reent,omitempty"` // RLock: extra re-entrant Lock() calls while holding
+	// millisecond delays (added to the unit delays) for the timing classes "waited acquisition" and "colliding keys"
+	PauseMs int `json:"pause_ms,omitempty"`
+	HoldMs  int `json:"hold_ms,omitempty"`
+}
+
+// c19Collide: the case key B shares its slot of the server's fast key table with a second key A (the slot hash XORs the
+// four 32-bit words of a key, so swapping W0 and W1 collides for every table size). The harness locks A first (A takes
+// the slot, B's manager goes to the overflow map), lets the first Early scripts acquire B, unlocks A, waits PauseMs
+// (>= 1.2 s: the expiry sweep removes A's manager and frees the slot), then starts the remaining scripts, which contend
+// for B while the early holders keep it for another GateMs.
+type c19Collide struct {
+	W0      uint32 `json:"w0"`
+	W1      uint32 `json:"w1"`
+	Early   int    `json:"early"`
+	PauseMs int    `json:"pause_ms"`
+	GateMs  int    `json:"gate_ms"`
 }
 
 type c19Script struct {
@@ -60,8 +76,21 @@ type c19Case struct {
 	DefaultSet bool        `json:"default_set,omitempty"` // Event mode
 	Burst      bool        `json:"burst,omitempty"`       // Event: waiter step j>=1 is released by the harness right after the j-th Clear returned
 	Reconnect  int         `json:"reconnect,omitempty"`   // >0: server drops every client connection once, after that many delay units
+	Expiry     int         `json:"expiry,omitempty"`      // seconds promised to a holder (0 = 60: never reached); short expiries arm the lateness rule
+	ExpFlag    int         `json:"exp_flag,omitempty"`    // expiry flag bits passed through the client API (0x0100 = zero aof time: the hold is filed in the long expiry queue at once when expiry > 5 s)
+	Collide    *c19Collide `json:"collide,omitempty"`
 	Scripts    []c19Script `json:"scripts"`
 }
+
+func (c *c19Case) expiry() int {
+	if c.Expiry > 0 {
+		return c.Expiry
+	}
+	return c19Expried
+}
+
+// expried is the value handed to the client constructors: seconds in the low half, flag bits in the high half.
+func (c *c19Case) expried() uint32 { return uint32(c.expiry()) | uint32(c.ExpFlag)<<16 }
 
 func (c *c19Case) fingerprint() uint64 {
 	b, _ := json.Marshal(c)
@@ -79,10 +108,11 @@ type c19Ev struct {
 	M string // mode (rwlock) / role
 	R int    // 0 ok, >0 server result code, 0x80 transport error (LockError.Result), -1 other error
 	E string // error text
+	W int64  // wall time since the case started (ns); used ONLY for the lateness rule (bound with slack -> inconclusive)
 }
 
 func (e c19Ev) String() string {
-	s := fmt.Sprintf("t=%-5d g=%-2d s=%d %-9s", e.T, e.G, e.S, e.K)
+	s := fmt.Sprintf("t=%-5d w=%8.1fms g=%-2d s=%d %-9s", e.T, float64(e.W)/1e6, e.G, e.S, e.K)
 	if e.M != "" {
 		s += " mode=" + e.M
 	}
@@ -111,6 +141,7 @@ type c19Rec struct {
 	clock *int64
 	g     int
 	evs   []c19Ev
+	t0    time.Time
 }
 
 func (r *c19Rec) rec(s int, k, m string, err error) {
@@ -126,6 +157,9 @@ func (r *c19Rec) rec(s int, k, m string, err error) {
 	}
 	// The stamp is taken here: callers invoke rec() AFTER an acquire returned and BEFORE a release is issued.
 	ev.T = atomic.AddInt64(r.clock, 1)
+	if !r.t0.IsZero() {
+		ev.W = int64(time.Since(r.t0))
+	}
 	r.evs = append(r.evs, ev)
 }
 
@@ -149,6 +183,10 @@ type c19Info struct {
 	transportErrs  int
 	acqAfterDrop   int // reconnect mode: successful acquires returned after the connections were dropped
 	dropped        bool
+	late           bool  // a hold was released later than (earliest possible grant + expiry - slack): no verdict
+	maxWaitMs      int64 // longest lower bound of a forced wait that ended in a grant
+	waitedExposed  bool  // see c19Check: a waited hold outlived request time + expiry + 1 s while somebody else was asking
+	collideSettled bool
 	nontrivial     bool
 }
 
@@ -219,6 +257,23 @@ func c19Server() (uint, error) {
 }
 
 var c19KeySeq uint64
+
+// c19CollidingKeys returns two fresh, different keys that fall into the same slot of the server's fast key table.
+func c19CollidingKeys(w0, w1 uint32) (a, b [16]byte) {
+	if w0 == w1 {
+		w1 = ^w0
+	}
+	fresh := c19FreshKey()
+	put := func(k *[16]byte, off int, v uint32) {
+		k[off], k[off+1], k[off+2], k[off+3] = byte(v), byte(v>>8), byte(v>>16), byte(v>>24)
+	}
+	a, b = fresh, fresh // words 2 and 3 = per-process fresh counter
+	put(&a, 0, w0)
+	put(&a, 4, w1)
+	put(&b, 0, w1)
+	put(&b, 4, w0)
+	return
+}
 
 func c19FreshKey() [16]byte {
 	n := atomic.AddUint64(&c19KeySeq, 1)
@@ -303,20 +358,20 @@ func (a c19PrioA) release(string) error { _, err := a.l.Unlock(); return err }
 func c19NewPrim(c *c19Case, sc *c19Script, db *c19cl.Database, key [16]byte) c19Prim {
 	switch c.Prim {
 	case "lock":
-		return c19LockA{db.Lock(key, c19Timeout, c19Expried)}
+		return c19LockA{db.Lock(key, c19Timeout, c.expried())}
 	case "rlock":
 		if sc.Role == "lock" {
-			return c19LockA{db.Lock(key, c19Timeout, c19Expried)}
+			return c19LockA{db.Lock(key, c19Timeout, c.expried())}
 		}
-		return c19RLockA{db.RLock(key, c19Timeout, c19Expried)}
+		return c19RLockA{db.RLock(key, c19Timeout, c.expried())}
 	case "sem":
-		return c19SemA{db.Semaphore(key, c19Timeout, c19Expried, uint16(c.N))}
+		return c19SemA{db.Semaphore(key, c19Timeout, c.expried(), uint16(c.N))}
 	case "flow":
-		return c19FlowA{db.MaxConcurrentFlow(key, uint16(c.N), c19Timeout, c19Expried)}
+		return c19FlowA{db.MaxConcurrentFlow(key, uint16(c.N), c19Timeout, c.expried())}
 	case "rwlock":
-		return c19RWA{db.RWLock(key, c19Timeout, c19Expried)}
+		return c19RWA{db.RWLock(key, c19Timeout, c.expried())}
 	case "prio":
-		return c19PrioA{db.PriorityLock(key, uint8(sc.Prio), c19Timeout, c19Expried)}
+		return c19PrioA{db.PriorityLock(key, uint8(sc.Prio), c19Timeout, c.expried())}
 	}
 	return nil
 }
@@ -335,9 +390,12 @@ func c19Transport(err error) bool {
 // reconnect mode (Lock only): the server drops every connection once mid-run. A request that got no server answer is
 // ambiguous (it may still be queued or even granted at the server), so the goroutine first removes it with CancelWait
 // (which cancels a queued request and unlocks a granted one) and then retries; releases are retried until answered.
-func c19RunSteps(r *c19Rec, p c19Prim, sc *c19Script, reconnect bool) {
+func c19RunSteps(r *c19Rec, p c19Prim, sc *c19Script, reconnect bool, gate func(si int, ok bool)) {
 	for si, st := range sc.Steps {
 		c19Delay(st.Pause)
+		if st.PauseMs > 0 {
+			time.Sleep(time.Duration(st.PauseMs) * time.Millisecond)
+		}
 		var err error
 		for attempt := 0; ; attempt++ {
 			r.rec(si, "call", st.Mode, nil)
@@ -355,6 +413,9 @@ func c19RunSteps(r *c19Rec, p c19Prim, sc *c19Script, reconnect bool) {
 				time.Sleep(20 * time.Millisecond)
 			}
 		}
+		if gate != nil {
+			gate(si, err == nil) // harness-level sequencing only (colliding-keys cases); no stamp is taken here
+		}
 		if err != nil {
 			continue
 		}
@@ -368,6 +429,9 @@ func c19RunSteps(r *c19Rec, p c19Prim, sc *c19Script, reconnect bool) {
 			}
 		}
 		c19Delay(st.Hold)
+		if st.HoldMs > 0 {
+			time.Sleep(time.Duration(st.HoldMs) * time.Millisecond)
+		}
 		for j := 0; j < extra; j++ {
 			r.rec(si, "rerel", st.Mode, nil)
 			err = p.release(st.Mode)
@@ -436,17 +500,83 @@ func c19Execute(c *c19Case) (run c19Run) {
 	}
 	defer c19CloseClients(clients)
 	key := c19FreshKey()
+	var keyA [16]byte
+	if c.Collide != nil {
+		keyA, key = c19CollidingKeys(c.Collide.W0, c.Collide.W1)
+	}
 	var clock int64
+	t0 := time.Now()
 	recs := make([]*c19Rec, len(c.Scripts))
 	for i := range recs {
-		recs[i] = &c19Rec{clock: &clock, g: i}
+		recs[i] = &c19Rec{clock: &clock, g: i, t0: t0}
 	}
 	dbOf := func(sc *c19Script) *c19cl.Database { return clients[sc.Conn%c.Conns].SelectDB(0) }
 
 	var wg sync.WaitGroup
-	ctl := &c19Rec{clock: &clock, g: -1}
-	switch c.Prim {
-	case "event":
+	ctl := &c19Rec{clock: &clock, g: -1, t0: t0}
+	switch {
+	case c.Collide != nil && c.Prim != "event" && c.Prim != "prio":
+		col := c.Collide
+		early := col.Early
+		if early < 1 || early >= len(c.Scripts) {
+			run.setupErr = fmt.Errorf("malformed colliding-keys case")
+			return
+		}
+		la := clients[0].SelectDB(0).Lock(keyA, 5, c19Expried)
+		if _, lerr := la.Lock(); lerr != nil { // A first: it takes the slot of the fast key table
+			run.setupErr = fmt.Errorf("lock of the colliding key A failed: %v", lerr)
+			return
+		}
+		var acquired sync.WaitGroup
+		gateOpen, start := make(chan struct{}), make(chan struct{})
+		for i := range c.Scripts {
+			wg.Add(1)
+			if i < early {
+				acquired.Add(1)
+			}
+			go func(i int) {
+				defer wg.Done()
+				sc := &c.Scripts[i]
+				p := c19NewPrim(c, sc, dbOf(sc), key)
+				if i < early {
+					signalled := false
+					c19RunSteps(recs[i], p, sc, false, func(si int, ok bool) {
+						if !signalled {
+							signalled = true
+							acquired.Done()
+							if ok {
+								<-gateOpen
+							}
+						}
+					})
+					if !signalled {
+						acquired.Done()
+					}
+					return
+				}
+				<-start
+				c19RunSteps(recs[i], p, sc, false, nil)
+			}(i)
+		}
+		acquired.Wait() // B is held by the early holders; its manager lives in the overflow map of the slot
+		ctl.rec(0, "unlockA", "", nil)
+		_, _ = la.Unlock()
+		time.Sleep(time.Duration(col.PauseMs) * time.Millisecond)
+		// settled (white-box, not a verdict): the sweep has removed A's manager, i.e. the slot is free again
+		for try := 0; try < 120; try++ {
+			db := c19Srv.srv.slock.dbs[0]
+			if db != nil && db.GetLockManager(&protocol.LockCommand{LockKey: keyA}) == nil {
+				run.settled = true
+				break
+			}
+			time.Sleep(25 * time.Millisecond)
+		}
+		ctl.rec(0, "contend", "", nil)
+		close(start)
+		time.Sleep(time.Duration(col.GateMs) * time.Millisecond)
+		close(gateOpen)
+		wg.Wait()
+	case c.Prim == "event":
 		run.settled = true
 		setter := &c.Scripts[0]
 		ev := dbOf(setter).Event(key, c19Timeout, c19Expried, c.DefaultSet)
@@ -499,7 +629,7 @@ func c19Execute(c *c19Case) (run c19Run) {
 		if !c.DefaultSet {
 			_, _ = ev.Clear() // default-clear events hold a server lock while set: drop it
 		}
-	case "prio":
+	case c.Prim == "prio":
 		holder := &c.Scripts[0]
 		hp := c19NewPrim(c, holder, dbOf(holder), key)
 		r0 := recs[0]
@@ -514,7 +644,7 @@ func c19Execute(c *c19Case) (run c19Run) {
 			go func(i int) {
 				defer wg.Done()
 				sc := &c.Scripts[i]
-				c19RunSteps(recs[i], c19NewPrim(c, sc, dbOf(sc), key), sc, false)
+				c19RunSteps(recs[i], c19NewPrim(c, sc, dbOf(sc), key), sc, false, nil)
 			}(i)
 		}
 		// settle: wait until the server has queued every waiter (observed through the client API, LIST_WAIT)
@@ -545,7 +675,7 @@ func c19Execute(c *c19Case) (run c19Run) {
 				sc := &c.Scripts[i]
 				p := c19NewPrim(c, sc, dbOf(sc), key)
 				<-start
-				c19RunSteps(recs[i], p, sc, c.Reconnect > 0 && c.Prim == "lock")
+				c19RunSteps(recs[i], p, sc, c.Reconnect > 0 && c.Prim == "lock", nil)
 			}(i)
 		}
 		close(start)
@@ -571,7 +701,18 @@ func c19Execute(c *c19Case) (run c19Run) {
 
 const c19ResultTimeout = 3 // protocol.RESULT_TIMEOUT
 
+const c19LateSlackNs = int64(300 * time.Millisecond)
+
 const c19KeyEventWaitBeforeSet = "C19:event-wait-before-set"
+
+// Known finding: while a key's manager lives in the overflow map of the server's key table (hold filed in the long expiry
+// queue, or a second key in the same slot), an UNLOCK whose look-up coincides with another connection's LOCK look-up of
+// that slot (GetOrNewLockManager holds the slot in its transient state 1 while it searches the map) is answered
+// UNLOCK_ERROR: LockDB.GetLockManager waits for the slot, finds it empty and concludes from count <= 1 that the key has
+// no manager. The hold then stays until it expires.
+const c19KeyReleaseOverflow = "C19:release-failed:overflow-map"
+
+func (c *c19Case) overflowMap() bool { return c.ExpFlag&0x0100 != 0 || c.Collide != nil }
 
 func c19Check(c *c19Case, evs []c19Ev, settled bool) (info c19Info, viol *c19Violation) {
 	fail := func(key, format string, a ...interface{}) {
@@ -676,6 +817,18 @@ func c19Check(c *c19Case, evs []c19Ev, settled bool) (info c19Info, viol *c19Vio
 		return strings.Join(hs, " ")
 	}
 	var order []c19Ev // successful acquires in clock order (priority check)
+	// Lateness rule (the only use of wall time, a bound with slack): a hold is promised `expiry` seconds from its grant.
+	// The grant cannot be earlier than the acquire call and, when the primitive was definitely full at the call, not
+	// earlier than the first release stamped after it (stamps precede the unlock). A release stamped later than that
+	// lower bound + expiry - slack may be racing the server's legitimate expiry: the whole case is then inconclusive.
+	type c19Acq struct {
+		callW, lbW, retW, relW int64
+		forced, ok             bool
+	}
+	acqs := map[gs]*c19Acq{}
+	var allAcqs []*c19Acq
+	pending := map[gs]bool{} // forced attempts whose grant lower bound still waits for the next release stamp
+	expiryNs := int64(c.expiry()) * int64(time.Second)
 	for _, e := range evs {
 		id := gs{e.G, e.S}
 		switch e.K {
@@ -684,6 +837,10 @@ func c19Check(c *c19Case, evs []c19Ev, settled bool) (info c19Info, viol *c19Vio
 		case "call":
 			delete(forced, id) // a retried acquire (reconnect mode) is judged by its last call
 			delete(inReent, id)
+			delete(pending, id)
+			a := &c19Acq{callW: e.W, lbW: e.W}
+			acqs[id] = a
+			allAcqs = append(allAcqs, a)
 			full := false
 			if c.Prim == "rwlock" {
 				full = (e.M == "w" && readers+writers > 0) || (e.M == "r" && writers > 0)
@@ -692,11 +849,20 @@ func c19Check(c *c19Case, evs []c19Ev, settled bool) (info c19Info, viol *c19Vio
 			}
 			if full {
 				forced[id] = true
+				pending[id] = true
+				a.forced = true
 				if curReent() {
 					inReent[id] = true
 				}
 			}
 		case "ret":
+			delete(pending, id)
+			if a := acqs[id]; a != nil {
+				a.retW, a.ok = e.W, e.R == 0
+				if a.ok && a.forced && (a.lbW-a.callW)/1e6 > info.maxWaitMs {
+					info.maxWaitMs = (a.lbW - a.callW) / 1e6
+				}
+			}
 			if e.R != 0 {
 				info.acqFail++
 				if e.R == c19ResultTimeout {
@@ -747,6 +913,18 @@ func c19Check(c *c19Case, evs []c19Ev, settled bool) (info c19Info, viol *c19Vio
 				info.reentOK++
 			}
 		case "rel":
+			for pid := range pending {
+				if pid != id {
+					acqs[pid].lbW = e.W
+					delete(pending, pid)
+				}
+			}
+			if a := acqs[id]; a != nil {
+				a.relW = e.W
+				if _, held := holders[id]; held && e.W > a.lbW+expiryNs-c19LateSlackNs {
+					info.late = true
+				}
+			}
 			if m, ok := holders[id]; ok {
 				delete(holders, id)
 				if c.Prim == "rwlock" {
@@ -760,8 +938,11 @@ func c19Check(c *c19Case, evs []c19Ev, settled bool) (info c19Info, viol *c19Vio
 		case "relret", "rerelret":
 			if e.R != 0 {
 				noteErr(e)
-				if e.M != "retried" {
-					fail("C19:release-failed", "release of a definitely-held %s failed (expiry %ds not reached): %v", c.Prim, c19Expried, e)
+				if e.M != "retried" && c.overflowMap() {
+					fail(c19KeyReleaseOverflow, "release of a definitely-held %s failed (expiry %ds not reached; its key manager lives in "+
+						"the overflow map of the server's key table): %v", c.Prim, c.expiry(), e)
+				} else if e.M != "retried" {
+					fail("C19:release-failed", "release of a definitely-held %s failed (expiry %ds not reached): %v", c.Prim, c.expiry(), e)
 				}
 			}
 		}
@@ -802,6 +983,32 @@ func c19Check(c *c19Case, evs []c19Ev, settled bool) (info c19Info, viol *c19Vio
 			info.nontrivial = info.nontrivial && info.dropped && info.transportErrs >= 1 && info.acqAfterDrop >= 1
 		}
 	}
+	// waited-hold exposure: a hold granted after a forced wait of >= 1 s that was kept beyond (its REQUEST time + expiry + 1 s)
+	// while another acquire was outstanding at that instant - a server that times the hold from the request would admit it.
+	for _, h := range allAcqs {
+		if !h.ok || !h.forced || h.relW == 0 || h.lbW-h.callW < int64(time.Second) {
+			continue
+		}
+		at := h.callW + expiryNs + int64(time.Second)
+		if h.relW <= at {
+			continue
+		}
+		for _, o := range allAcqs {
+			if o != h && o.callW < at && (o.retW == 0 || o.retW > at) {
+				info.waitedExposed = true
+			}
+		}
+	}
+	if c.Collide != nil {
+		info.collideSettled = settled
+		info.nontrivial = info.nontrivial && settled
+	}
+	if c.Expiry > 0 && c.Expiry <= 5 {
+		info.nontrivial = info.nontrivial && info.waitedExposed
+	}
+	if info.late {
+		viol, info.nontrivial = nil, false // no verdict of any kind for a case that ran late
+	}
 	return
 }
 
@@ -832,6 +1039,13 @@ func c19Classes(c *c19Case, info *c19Info, settled bool) []string {
 	add(c.Prim == "event" && !c.DefaultSet, "event_default_clear")
 	add(c.Reconnect > 0, "reconnect")
 	add(c.Burst, "event_burst_after_clear")
+	add(info.late, "late_hold_inconclusive")
+	add(c.ExpFlag&0x0100 != 0, "zero_aof_time_flag_long_expiry_queue")
+	add(c.Expiry > 0, fmt.Sprintf("expiry:%ds", c.Expiry))
+	add(c.Collide != nil, "colliding_keys")
+	add(c.Collide != nil && !settled, "colliding_keys_unsettled")
+	add(info.waitedExposed, "waited_hold_exposed")
+	add(info.maxWaitMs >= 1000, "forced_wait_1s_plus")
 	if (c.Prim == "sem" || c.Prim == "flow") && c.N > 0 {
 		cl = append(cl, fmt.Sprintf("n:%d", c.N))
 	}
@@ -913,6 +1127,17 @@ func c19GenDelay(t *rapid.T, label string, crowd int) int {
 func c19GenCase(t *rapid.T, prim string, st *vStat) *c19Case {
 	g, conns := c19GenShape(t)
 	c := &c19Case{Prim: prim, Conns: conns}
+	if prim != "event" && rapid.IntRange(0, 2).Draw(t, "zero_aof_time") == 0 {
+		// the hold is filed in the server's long expiry queue at once (its key manager moves to the overflow map);
+		// 6..8 s are far beyond the duration of a case and the lateness rule guards the rest
+		c.ExpFlag = 0x0100
+		c.Expiry = rapid.IntRange(6, 8).Draw(t, "expiry")
+		if conns > 1 && vIsKnown(c19KeyReleaseOverflow) {
+			// excluded by construction: one connection is served by one server goroutine, so no two look-ups coincide
+			conns, c.Conns = 1, 1
+			st.Exclude("overflow-map key used from more than one connection (known finding " + c19KeyReleaseOverflow + ")")
+		}
+	}
 	if prim == "sem" || prim == "flow" {
 		c.N = rapid.IntRange(1, 5).Draw(t, "n")
 	}
@@ -998,6 +1223,121 @@ func c19GenCase(t *rapid.T, prim string, st *vStat) *c19Case {
 	return c
 }
 
+// c19GenCollideCase: two keys in one slot of the fast key table (see c19Collide). bound-many early holders take B, the
+// other scripts contend for it >= 1.2 s after A was unlocked.
+func c19GenCollideCase(t *rapid.T, st *vStat) *c19Case {
+	prim := rapid.SampledFrom([]string{"lock", "rlock", "sem", "flow", "rwlock"}).Draw(t, "prim")
+	c := &c19Case{Prim: prim, Conns: rapid.IntRange(1, 6).Draw(t, "conns")}
+	if c.Conns > 1 && vIsKnown(c19KeyReleaseOverflow) {
+		c.Conns = 1
+		st.Exclude("overflow-map key used from more than one connection (known finding " + c19KeyReleaseOverflow + ")")
+	}
+	early := 1
+	if prim == "sem" || prim == "flow" {
+		c.N = rapid.IntRange(1, 4).Draw(t, "n")
+		early = c.N
+	}
+	earlyMode := ""
+	if prim == "rwlock" {
+		earlyMode = "w"
+		if rapid.Bool().Draw(t, "early_readers") {
+			earlyMode, early = "r", rapid.IntRange(1, 3).Draw(t, "early")
+		}
+	}
+	c.Collide = &c19Collide{W0: rapid.Uint32().Draw(t, "w0"), W1: rapid.Uint32().Draw(t, "w1"), Early: early,
+		PauseMs: rapid.IntRange(1200, 1500).Draw(t, "pause_ms"), GateMs: rapid.IntRange(5, 40).Draw(t, "gate_ms")}
+	contenders := rapid.IntRange(1, 6).Draw(t, "contenders")
+	for i := 0; i < early+contenders; i++ {
+		sc := c19Script{Conn: rapid.IntRange(0, c.Conns-1).Draw(t, "conn")}
+		st := c19Step{Pause: rapid.IntRange(0, 4).Draw(t, "pause"), Hold: rapid.IntRange(0, 4).Draw(t, "hold")}
+		switch prim {
+		case "rlock":
+			sc.Role = "rlock"
+			if rapid.IntRange(0, 2).Draw(t, "plain") == 0 {
+				sc.Role = "lock"
+			} else {
+				st.Reent = rapid.IntRange(0, 2).Draw(t, "reent")
+			}
+		case "rwlock":
+			if i < early {
+				st.Mode = earlyMode
+			} else if earlyMode == "r" || rapid.Bool().Draw(t, "writer") {
+				st.Mode = "w" // readers hold it: only a writer has to be refused
+			} else {
+				st.Mode = "r"
+			}
+		}
+		sc.Steps = []c19Step{st}
+		if i >= early && rapid.Bool().Draw(t, "again") {
+			sc.Steps = append(sc.Steps, c19Step{Mode: st.Mode, Pause: rapid.IntRange(0, 3).Draw(t, "pause"), Hold: rapid.IntRange(0, 3).Draw(t, "hold")})
+		}
+		c.Scripts = append(c.Scripts, sc)
+	}
+	return c
+}
+
+// c19GenWaitedCase: "waited acquisition" timing class. bound-many first holders keep the primitive for wait = expiry-0.7 s,
+// bound-many waiters ask 0.15..0.3 s after the start, are granted after ~expiry-1 s of waiting and then stay inside the
+// critical section until 0.6..0.7 s before the expiry they were promised at the grant; contenders ask while the waiters hold.
+// A server that counts the hold from the REQUEST ends it about 1..2 s after the grant and admits a contender.
+func c19GenWaitedCase(t *rapid.T) *c19Case {
+	prim := rapid.SampledFrom([]string{"lock", "lock", "rlock", "sem", "flow", "rwlock"}).Draw(t, "prim")
+	c := &c19Case{Prim: prim, Conns: rapid.IntRange(1, 4).Draw(t, "conns")}
+	c.Expiry = rapid.SampledFrom([]int{3, 3, 3, 4, 4, 5}).Draw(t, "expiry")
+	bound := 1
+	if prim == "sem" || prim == "flow" {
+		c.N = rapid.IntRange(1, 3).Draw(t, "n")
+		bound = c.N
+	}
+	firstHold := c.Expiry*1000 - 700
+	role := func(i int) (string, int) {
+		if prim != "rlock" {
+			return "", 0
+		}
+		if rapid.IntRange(0, 2).Draw(t, "plain") == 0 {
+			return "lock", 0
+		}
+		return "rlock", rapid.IntRange(0, 2).Draw(t, "reent")
+	}
+	for i := 0; i < bound; i++ { // first holders
+		r, re := role(i)
+		m := ""
+		if prim == "rwlock" {
+			m = "w"
+		}
+		c.Scripts = append(c.Scripts, c19Script{Conn: rapid.IntRange(0, c.Conns-1).Draw(t, "conn"), Role: r,
+			Steps: []c19Step{{Mode: m, Reent: re, HoldMs: firstHold}}})
+	}
+	waiters := bound
+	waiterMode := ""
+	if prim == "rwlock" {
+		waiterMode = "w"
+		if rapid.Bool().Draw(t, "waiting_readers") {
+			waiterMode, waiters = "r", rapid.IntRange(1, 3).Draw(t, "waiters")
+		}
+	}
+	for i := 0; i < waiters; i++ {
+		r, re := role(i)
+		c.Scripts = append(c.Scripts, c19Script{Conn: rapid.IntRange(0, c.Conns-1).Draw(t, "conn"), Role: r,
+			Steps: []c19Step{{Mode: waiterMode, Reent: re, PauseMs: rapid.IntRange(150, 300).Draw(t, "pause_ms"),
+				HoldMs: c.Expiry*1000 - rapid.IntRange(600, 700).Draw(t, "before_expiry_ms")}}})
+	}
+	contenders := rapid.IntRange(1, 3).Draw(t, "contenders")
+	for i := 0; i < contenders; i++ {
+		r, _ := role(i)
+		m := ""
+		if prim == "rwlock" {
+			m = "w"
+			if waiterMode == "w" && rapid.Bool().Draw(t, "reader") {
+				m = "r"
+			}
+		}
+		c.Scripts = append(c.Scripts, c19Script{Conn: rapid.IntRange(0, c.Conns-1).Draw(t, "conn"), Role: r,
+			Steps: []c19Step{{Mode: m, PauseMs: rapid.IntRange(400, firstHold+600).Draw(t, "pause_ms"), HoldMs: rapid.IntRange(0, 30).Draw(t, "hold_ms")}}})
+	}
+	return c
+}
+
 // c19GenReconnectCase: Lock only (the only primitive whose API can cancel a request orphaned by a lost connection).
 func c19GenReconnectCase(t *rapid.T) *c19Case {
 	g := rapid.IntRange(2, 10).Draw(t, "goroutines")
@@ -1022,6 +1362,10 @@ func c19Property(t *testing.T, name, prim string) {
 		var c *c19Case
 		if prim == "lock-reconnect" {
 			c = c19GenReconnectCase(t)
+		} else if prim == "colliding-keys" {
+			c = c19GenCollideCase(t, st)
+		} else if prim == "waited-hold" {
+			c = c19GenWaitedCase(t)
 		} else {
 			c = c19GenCase(t, prim, st)
 		}
@@ -1041,6 +1385,12 @@ func TestC19_Flow(t *testing.T)         { c19Property(t, "TestC19_Flow", "flow")
 func TestC19_RWLock(t *testing.T)       { c19Property(t, "TestC19_RWLock", "rwlock") }
 func TestC19_PriorityLock(t *testing.T) { c19Property(t, "TestC19_PriorityLock", "prio") }
 func TestC19_Event(t *testing.T)        { c19Property(t, "TestC19_Event", "event") }
+
+// Two keys in one slot of the server's key table; ~1.5 s per case (waits for the server's sweep).
+func TestC19_CollidingKeys(t *testing.T) { c19Property(t, "TestC19_CollidingKeys", "colliding-keys") }
+
+// Holds granted after a 2..4 s wait and kept until shortly before the promised expiry (3..5 s); 4.7..8.7 s per case.
+func TestC19_WaitedHold(t *testing.T) { c19Property(t, "TestC19_WaitedHold", "waited-hold") }
 
 // Thorough tier only (every case costs >= 3 s: the client library waits 3 s before it reconnects).
 func TestC19_LockReconnect(t *testing.T) { c19Property(t, "TestC19_LockReconnect", "lock-reconnect") }
@@ -1088,6 +1438,8 @@ func TestC19_OracleSelfTest(t *testing.T) {
 			mk([4]interface{}{0, "ret", "", 0}, [4]interface{}{0, "reret", "", 8}), "C19:rlock-reentry-refused"},
 		{"release failed", c19Case{Prim: "flow", N: 1, Conns: 1, Scripts: two},
 			mk([4]interface{}{0, "ret", "", 0}, [4]interface{}{0, "rel", "", 0}, [4]interface{}{0, "relret", "", 5}), "C19:release-failed"},
+		{"release failed overflow", c19Case{Prim: "flow", N: 1, Conns: 1, ExpFlag: 0x0100, Expiry: 7, Scripts: two},
+			mk([4]interface{}{0, "ret", "", 0}, [4]interface{}{0, "rel", "", 0}, [4]interface{}{0, "relret", "", 6}), c19KeyReleaseOverflow},
 		{"prio ok", c19Case{Prim: "prio", Conns: 1, Scripts: []c19Script{{Prio: 0}, {Prio: 1}, {Prio: 3}}},
 			mk([4]interface{}{0, "ret", "", 0}, [4]interface{}{0, "rel", "", 0}, [4]interface{}{2, "ret", "", 0}, [4]interface{}{2, "rel", "", 0},
 				[4]interface{}{1, "ret", "", 0}), ""},
@@ -1105,6 +1457,27 @@ func TestC19_OracleSelfTest(t *testing.T) {
 			mk([4]interface{}{0, "clearcall", "", 0}, [4]interface{}{1, "waitcall", "", 0}, [4]interface{}{0, "clearret", "", 0},
 				[4]interface{}{1, "waitret", "", 0}, [4]interface{}{0, "setcall", "", 0}), ""},
 	}
+	// lateness rule: expiry 3 s, g1 is granted after g0's release stamped at 2.0 s, so its promise runs until >= 5.0 s.
+	ms := func(rows ...[5]interface{}) []c19Ev {
+		var evs []c19Ev
+		for i, r := range rows {
+			evs = append(evs, c19Ev{T: int64(i + 1), G: r[0].(int), K: r[1].(string), R: r[2].(int), W: int64(r[3].(int)) * int64(time.Millisecond)})
+		}
+		return evs
+	}
+	waited := c19Case{Prim: "lock", Conns: 1, Expiry: 3, Scripts: two}
+	tcs = append(tcs,
+		tc{"waited hold, contender admitted inside the promise", waited,
+			ms([5]interface{}{0, "call", 0, 0}, [5]interface{}{0, "ret", 0, 1}, [5]interface{}{1, "call", 0, 200}, [5]interface{}{2, "call", 0, 400},
+				[5]interface{}{0, "rel", 0, 2000}, [5]interface{}{1, "ret", 0, 2001}, [5]interface{}{2, "ret", 0, 4200}, [5]interface{}{1, "rel", 0, 4600}),
+			"C19:lock-bound-exceeded"},
+		tc{"same, but the holder released later than grant lower bound + expiry - slack: no verdict", waited,
+			ms([5]interface{}{0, "call", 0, 0}, [5]interface{}{0, "ret", 0, 1}, [5]interface{}{1, "call", 0, 200}, [5]interface{}{2, "call", 0, 400},
+				[5]interface{}{0, "rel", 0, 2000}, [5]interface{}{1, "ret", 0, 2001}, [5]interface{}{2, "ret", 0, 4200}, [5]interface{}{1, "rel", 0, 4800}),
+			""},
+		tc{"unforced hold is timed from its call", waited,
+			ms([5]interface{}{0, "call", 0, 0}, [5]interface{}{0, "ret", 0, 900}, [5]interface{}{1, "call", 0, 950}, [5]interface{}{1, "ret", 0, 2750}, [5]interface{}{0, "rel", 0, 2800}),
+			""})
 	for _, x := range tcs {
 		_, v := c19Check(&x.c, x.evs, true)
 		got := ""
